@@ -88,6 +88,16 @@ func elem(shape string, j int, c *ctr) jl.Node {
 		return jl.Int(int64(50 + j))
 	case "str":
 		return jl.Str("t" + strconv.Itoa(j))
+	case "mm": // for scripts with two multi-valued operands: only a late / off-diagonal pair of a x b is equal
+		switch j % 4 {
+		case 0:
+			return jl.Obj("a", jl.Arr(jl.Int(1), jl.Int(2)), "b", jl.Arr(jl.Int(3), jl.Int(2)), "c", c.next())
+		case 1:
+			return jl.Obj("a", jl.Arr(jl.Int(5), jl.Int(6)), "b", jl.Arr(jl.Int(7), jl.Int(8)), "c", c.next())
+		case 2:
+			return jl.Obj("a", jl.Arr(jl.Int(10), jl.Int(11), jl.Int(12)), "b", jl.Arr(jl.Int(13), jl.Int(14), jl.Int(12)), "c", c.next())
+		}
+		return jl.Obj("a", jl.Arr(jl.Int(20), jl.Int(21)), "b", jl.Arr(jl.Int(21), jl.Int(22), jl.Int(23)), "c", c.next())
 	default: // mixed
 		switch j % 5 {
 		case 0:
@@ -245,7 +255,9 @@ func matrix(args []string) {
 	}
 	// unions: ints, keys, mixed, repeated, out of range
 	unions := [][]any{{0}, {-1}, {0, 1}, {1, 0}, {2, 0, 1}, {-1, 0}, {0, -1}, {0, 0}, {1, 1, 0}, {5, 0}, {-7, 1}, {7, -7}, {0, 2, 4},
-		{"a"}, {"a", "b"}, {"b", "a"}, {"c", "a", "b"}, {"a", "a"}, {"zz", "a"}, {"a", 0}, {0, "a"}, {"b", 1, "a", 0}, {-2, "c", 1}, {"d"}, {"d", "a"}}
+		{"a"}, {"a", "b"}, {"b", "a"}, {"c", "a", "b"}, {"a", "a"}, {"zz", "a"}, {"a", 0}, {0, "a"}, {"b", 1, "a", 0}, {-2, "c", 1}, {"d"}, {"d", "a"},
+		// out-of-range / absent members at every position of the list, next to members that exist
+		{-9, 0}, {0, 5}, {0, 9, 1}, {9, 0, 1}, {0, 1, 9}, {1, -9, 0}, {"a", "zz"}, {"a", "zz", "b"}, {"zz", "b", "a"}}
 	for _, u := range unions {
 		for _, ct := range all {
 			v++
@@ -284,6 +296,36 @@ func matrix(args []string) {
 					emit(3, []jl.Frag{jl.FRoot(), m, s2, jl.FWild()}, d)
 					emit(3, []jl.Frag{jl.FRoot(), m, s2, jl.FNth(0)}, d)
 				}
+			}
+		}
+	}
+	// scripts with two multi-valued operands (some pair must match) and scripts that read the root ($.q)
+	mms := []jl.Frag{
+		jl.FFilterMM("a", jl.FWild(), "b", jl.FWild()),
+		jl.FFilterMM("a", jl.FSlice(0, A, A), "b", jl.FSlice(1, A, A)),
+		jl.FFilterMM("a", jl.FSlice(1, A, A), "b", jl.FWild()),
+	}
+	for _, f := range mms {
+		for _, ct := range []cont{{"arr", 0}, {"arr", 1}, {"arr", 3}, {"arr", 4}, {"obj", 2}, {"obj", 4}, {"scalar", 0}} {
+			c := &ctr{n: 100}
+			d := mkCont(ct, "mm", c)
+			emit(2, []jl.Frag{jl.FRoot(), f}, d)
+			emit(3, []jl.Frag{jl.FRoot(), jl.FChild("p"), f}, jl.Obj("p", d, "q", jl.Int(9999)))
+			emit(2, []jl.Frag{jl.FRoot(), f, jl.FChild("c")}, d)
+			emit(3, []jl.Frag{jl.FRoot(), jl.FNth(-2), f, jl.FChild("a"), jl.FNth(-1)}, jl.Arr(d, jl.Int(77)))
+		}
+	}
+	for _, q := range []jl.Node{jl.Int(11), jl.Int(13), jl.Int(99), jl.Str("s1")} {
+		for _, key := range []string{"a", "b"} {
+			for _, ct := range []cont{{"arr", 0}, {"arr", 2}, {"arr", 4}, {"obj", 3}} {
+				c := &ctr{n: 100}
+				d := mkCont(ct, "obj", c)
+				f := jl.FFilterRoot(key, "q")
+				emit(3, []jl.Frag{jl.FRoot(), jl.FChild("p"), f}, jl.Obj("p", d, "q", q))
+				emit(3, []jl.Frag{jl.FRoot(), jl.FChild("p"), f, jl.FChild("b")}, jl.Obj("p", d, "q", q))
+				emit(3, []jl.Frag{jl.FRoot(), jl.FChild("p"), f, jl.FWild()}, jl.Obj("p", d, "q", q))
+				emit(3, []jl.Frag{jl.FRoot(), jl.FChild("p"), f}, jl.Obj("p", d)) // the root has no q
+				emit(2, []jl.Frag{jl.FRoot(), f}, d)                              // the root is the container itself
 			}
 		}
 	}
